@@ -2,6 +2,7 @@ import Martian.Lemmas.Config
 import Martian.Generated.Config
 import Martian.Props.C12.Matchers
 import Martian.Props.C12.Json
+import Martian.Props.C12.Facts
 /-!
 C12 — A JSON modifier configuration means what its tree says, for every tree.
 Only property theorems and non-vacuity examples live here.
